@@ -1025,6 +1025,89 @@ fn main() {
         run.guard("redefinition-batches-refused", r > 0 && n == 0, format!("{r} refused, {n} not refused"));
     }
 
+    // ---------------------------------------------------------------- integer encodings against declared types
+    // "a value not matching a declared or inferred type rejected" - and one that matches, bound:
+    // `integer` means every integer, whatever width the embedder's Rust type had (seeded change
+    // C05-9 asked `as_number()`, which has no answer for a u128 above i128::MAX).
+    {
+        let nums: Vec<V> = vec![
+            V::I64(5), V::I64(i64::MIN), V::U64(u64::MAX), V::I128(i128::MIN), V::I128(i128::MAX), V::U128(7), V::U128(1 << 127), V::U128(u128::MAX),
+            V::F64(2.0), V::F64(2.5),
+        ];
+        let decls: Vec<(&str, Option<Ty>)> = vec![
+            ("n: integer", Some(Ty::Integer)),
+            ("n = 0", Some(Ty::Integer)),
+            ("n: number", Some(Ty::Number)),
+            ("n: number = 1.5", Some(Ty::Number)),
+            ("n: float", Some(Ty::Float)),
+            ("n = 0.5", Some(Ty::Float)),
+            ("n", None),
+        ];
+        let routes = ["shorthand", "explicit-variable", "spread", "api"];
+        let n_items = (decls.len() * nums.len()) as u64;
+        run.family(
+            Family::new(
+                "integer-encodings",
+                n_items,
+                &format!("{} parameter declarations (integer / number / float, declared and inferred, untyped) x {} numbers in every integer encoding (i64, u64, i128, u128 up to u128::MAX) and two floats x {} routes (shorthand, explicit variable, spread, render_component): bound and printed, or rejected, as the declared type says", decls.len(), nums.len(), routes.len()),
+            ),
+            |item, acc: &mut Acc| {
+                let (decl, ty) = decls[item as usize / nums.len()];
+                let v = &nums[item as usize % nums.len()];
+                let mut t = new_tera();
+                let def = format!("{{% component Num({decl}) %}}[{{{{ n }}}}]{{% endcomponent Num %}}");
+                let tpls = vec![
+                    ("c.txt".to_string(), def.clone()),
+                    ("shorthand.txt".to_string(), "{{ <Num n /> }}".to_string()),
+                    ("explicit-variable.txt".to_string(), "{{ <Num n={n} /> }}".to_string()),
+                    ("spread.txt".to_string(), "{{ <Num {...m} /> }}".to_string()),
+                ];
+                if !engine::add_templates(&mut t, &tpls).is_ok() {
+                    acc.violation("integer-encodings:refused-at-registration".to_string(), format!("the definition `{def}` and its callers were refused"), || json!({"templates": tpls}));
+                    return;
+                }
+                let want = match ty.map(|ty| comp::type_match(ty, v)) {
+                    None | Some(comp::Match::Yes) => Some(true),
+                    Some(comp::Match::No) => Some(false),
+                    Some(comp::Match::Unspecified) => None,
+                };
+                let shown = engine::render_str(&t, "{{ n }}", &ctx_of(&[("n".to_string(), v.clone())]), false);
+                for route in routes {
+                    let ctx = ctx_of(&[("n".to_string(), v.clone()), ("m".to_string(), V::map(&[("n", v.clone())]))]);
+                    let out = if route == "api" {
+                        engine::to_out(engine::guarded(|| t.render_component("Num", &ctx_of(&[("n".to_string(), v.clone())]), None, false)))
+                    } else {
+                        engine::render(&t, &format!("{route}.txt"), &ctx)
+                    };
+                    let case = || json!({"definition": def, "route": route, "n": v.describe()});
+                    let class = match (&out, want) {
+                        (Out::Panic(p), _) => {
+                            acc.violation("integer-encodings:panic".to_string(), format!("panicked: {p}"), case);
+                            "panic"
+                        }
+                        (Out::Ok(text), Some(true)) | (Out::Ok(text), None) => {
+                            let expect = format!("[{}]", shown.ok().unwrap_or("?"));
+                            if *text != expect {
+                                acc.violation(format!("integer-encodings:wrong-text:{route}"), format!("rendered {text:?}, expected {expect:?}"), case);
+                            }
+                            "bound"
+                        }
+                        (Out::Err(..), Some(false)) | (Out::Err(..), None) => "rejected",
+                        (Out::Err(k, m), Some(true)) => {
+                            acc.violation(format!("integer-encodings:matching-value-rejected:{route}"), format!("`{decl}` rejected {}: {k}: {}", v.describe(), m.lines().next().unwrap_or("")), case);
+                            "WRONGLY-REJECTED"
+                        }
+                        (Out::Ok(text), Some(false)) => {
+                            acc.violation(format!("integer-encodings:mismatching-value-bound:{route}"), format!("`{decl}` bound {} and rendered {text:?}", v.describe()), case);
+                            "WRONGLY-BOUND"
+                        }
+                    };
+                    acc.case(true, &format!("integer-encodings:{class}"));
+                }
+            },
+        );
+    }
+
     // ---------------------------------------------------------------- calls-noescape
     // the quick alphabets again, in .txt templates (nothing may be escaped; API autoescape=false)
     let ne_sigs = if thorough { comp::signatures(&Ty::QUICK) } else { comp::signatures_p_only(&Ty::QUICK) };
